@@ -126,6 +126,16 @@ func runC09(c *Ctx) {
 			roots = append(roots, fn)
 			continue
 		}
+		// the helpers of the built-ins (shared keyword parsers, scanners, comparison and conversion helpers) are
+		// swept on their own as well: a helper that is too large to be inlined, or has a loop, is otherwise
+		// nobody's obligation
+		if pk[pkgShort(fn)] && fn.Parent() == nil && len(fn.Blocks) > 0 && fn.Synthetic == "" && fn.Pos().IsValid() && !strings.Contains(fn.Name(), "init") {
+			file := c.P.SSA.Fset.Position(fn.Pos()).Filename
+			if !strings.HasSuffix(file, "_test.go") {
+				roots = append(roots, fn)
+				continue
+			}
+		}
 		if fn.Pos().IsValid() && fn.Parent() == nil {
 			file := strings.TrimPrefix(c.P.SSA.Fset.Position(fn.Pos()).Filename, repoDir+"/")
 			if len(fn.Blocks) > 0 && (anchorFiles[file] || (rootAll && pkgShort(fn) == "slip" && !strings.HasSuffix(file, "_test.go") && !strings.Contains(fn.Name(), "init"))) {
